@@ -23,7 +23,9 @@ func (u *transUnit) src(n ast.Node) string {
 
 // isObject: values of this type are objects with pointer semantics (an interface value holding a
 // pointer to a translated struct, or a pointer to a translated struct).
-func isObject(t *gty) bool { return t != nil && (t.kind == "iface" || t.kind == "named") }
+func isObject(t *gty) bool {
+	return t != nil && (t.kind == "iface" || (t.kind == "named" && !valueStructsNow[t.name]))
+}
 
 // refInfo: a Go variable (or the expression m[k]) that denotes the entry k of the map m whose values
 // are objects.  The entry is read from the map when a method is called through the reference and the
@@ -346,6 +348,9 @@ func (c *fnCtx) typeOfPath(e ast.Expr) *gty {
 }
 
 func (c *fnCtx) isTranslatedCall(call *ast.CallExpr) bool {
+	if c.u.step != nil && c.stepCallee(call) != nil {
+		return true
+	}
 	k, _ := c.classifyCall(call)
 	return k != calleeNone
 }
@@ -354,6 +359,11 @@ func (c *fnCtx) isTranslatedCall(call *ast.CallExpr) bool {
 // receiver back) and returns the Lean terms of the Go results with their types.
 func (c *fnCtx) callCore(ind int, call *ast.CallExpr) ([]string, []*gty, bool) {
 	u := c.u
+	if u.step != nil {
+		if sc := c.stepCallee(call); sc != nil {
+			return c.stepCallCore(ind, call, sc)
+		}
+	}
 	kind, rty := c.classifyCall(call)
 	if kind == calleeNone {
 		return nil, nil, false
